@@ -30,7 +30,8 @@ def links_from_html(
             continue
 
         # urllib.parse.urljoin lowercases protocol...
-        if not PROTOCOL_RE.match(url):
+        # NOTE: '//host/path' is relative to the protocol of the base url
+        if not PROTOCOL_RE.match(url) or url.startswith("//"):
             # NOTE: a href can be anything, the result may not be parseable
             try:
                 url = urljoin(base_url, url)
